@@ -9,7 +9,7 @@ judges tcpPacketConn behind a real TCPMuxDefault (net.Pipe, synctest bubble) and
 
 C15: TcpMux (one action per critical section / blocking point of each goroutine of the mux) is model-checked
 exhaustively within a bound on environment actions; behaviours from TLC's simulation mode (TcpMuxSim prints the
-environment's actions as JSON), TLC's counterexample to NoStaleRemoval and a few directed schedules are replayed
+environment's actions as JSON), TLC's near-miss counterexample to NoStaleRemoval and a few directed schedules are replayed
 on the real TCPMuxDefault inside synctest bubbles; the recorded traces are validated against TcpMux with silent
 internal steps (TcpMuxTrace) and judged by TcpMuxMon.
 
@@ -198,7 +198,7 @@ def framing_graph(work, n_pk, stats, timeout=300):
 
 
 def framing_near_miss(work, stats, timeout=300):
-    """The same model with the writer that truncates the length: TLC must find NoTruncHeader violated (design-level counterexample)."""
+    """Near miss: the same model with the writer that truncates the length (F-C14, repaired): TLC must find NoTruncHeader violated."""
     mod = write_module(work.dir, "MCF_miss", "MC_TcpFraming",
                        {"HB": str(HB_SMALL), "N": "2", "Lens": tla_set(range(6)), "Caps": tla_set([2, 3]),
                         "Truncs": tla_set([0]), "Configs": "MCConfigs", "Truncating": "TRUE"},
@@ -422,8 +422,8 @@ def split_events(evfile, want_over):
 
 def framing_conformance(work, stats, evfile, tag, timeout=600):
     """TcpFramingTrace over the recorded events (evidence, not verdict). Cases with an over-long packet that do not
-    conform to the specified writer are validated against the near-miss writer (Truncating = TRUE): that is how the
-    unchanged tree behaves (F-C14)."""
+    conform to the specified writer are also tried against the near-miss writer (Truncating = TRUE, the defect F-C14
+    repaired by 93179af) so that a regression is named precisely in the evidence."""
     def validate(lines, ncases, truncating, name):
         path = work.path("ev-%s-%s.ndjson" % (tag, name))
         open(path, "w").writelines(lines)
@@ -492,7 +492,7 @@ def pconn_cases(rng, paths, n_paths, n_random):
         trunc = min(rng.choice([0, 0, 0, 1, 2, 5]), total - STUN_FRAME)      # never cut into the first (STUN) frame
         cases.append({"pk": pk, "writes": writes, "trunc": trunc, "wb": 0, "rb": rng.choice([1, 8, 64]),
                       "reply": reply, "rchunks": [rng.choice([1, 2, 5, 1 << 20]) for _ in range(60)], "rcap": 65535, "tag": "random"})
-    # WriteTo with every length class, without and with the write buffer
+    # WriteTo with every length class, without and with the write buffer (8191/8192 with the buffer: regression F-C14b, efd5d35)
     for wb in (0, 4 << 20):
         cases.append({"pk": [], "writes": [STUN_FRAME], "trunc": 0, "wb": wb, "rb": 8, "reply": [0, 1, 2, 255, 256, 8189, 8190],
                       "rchunks": [1, 1, 2, 1 << 20], "rcap": 65535, "tag": "writeto wb=%d" % wb})
@@ -502,7 +502,7 @@ def pconn_cases(rng, paths, n_paths, n_random):
                   "rchunks": [1 << 20] * 4, "rcap": 65535, "tag": "writeto-big wb=0"})
     cases.append({"pk": [], "writes": [STUN_FRAME], "trunc": 0, "wb": 0, "rb": 8, "reply": [65541],
                   "rchunks": [1 << 20] * 4, "rcap": 8192, "tag": "writeto-fc14 wb=0"})
-    # the application reads with a buffer whose length is shorter than the packet but whose capacity is not
+    # the application reads with a buffer whose length is shorter than the packet but whose capacity is not (regression F-C14c, d173a44)
     cases.append({"pk": [10], "writes": [STUN_FRAME + 12], "trunc": 0, "wb": 0, "rb": 8, "reply": [], "rchunks": [], "rcap": 8192,
                   "alen": 40, "acap": 40, "tag": "app buffer len=cap=40"})
     cases.append({"pk": [50, 10], "writes": [STUN_FRAME + 52 + 12], "trunc": 0, "wb": 0, "rb": 8, "reply": [], "rchunks": [], "rcap": 8192,
@@ -575,7 +575,7 @@ def new_stats():
             "graph_roots": 0, "graph_paths_total": 0, "cases_by_kind": {}, "wall": {}}
 
 
-# the minimal failing inputs of F-C14, replayed in every run so that the known finding is always reproduced
+# the minimal failing inputs of F-C14 (repaired by 93179af), replayed in every run as regression cases
 FC14_CASES = [dict(pk=[65541], cap=8192, trunc=0, chunks=[], tag="fc14-min"),
               dict(pk=[5, 65536, 7], cap=8192, trunc=0, chunks=[1, 1, 2, 3], tag="fc14-65536"),
               dict(pk=[70000], cap=65535, trunc=0, chunks=[1 << 20] * 8, tag="fc14-70000")]
@@ -684,7 +684,7 @@ PLANS = {"C14": c14}
 MUX_BEHAVIOURS = ["known", "unknown", "late", "garbage", "nonbinding", "nouser", "oversize", "silent", "earlyclose"]
 MUX_CLASSES = ["known", "unknown", "garbage", "silent", "earlyclose"]     # one bad-first-frame class stands for all four in the quick model check
 MUX_INVARIANTS = ["TypeOK", "RoutedByFirstUfrag", "RepliesOnSameConn", "BadFirstFrameClosed", "ProvisionalExpires", "WgCounts",
-                  "CloseCompletes", "CloseProgress"]
+                  "CloseCompletes", "CloseProgress", "NoStaleRemoval"]
 MUX_PARTS = {"RoutedSafe": "RoutedByFirstUfrag", "RepliesRouted": "RoutedByFirstUfrag", "RoutedComplete": "RoutedByFirstUfrag",
              "HandleAlive": "RoutedByFirstUfrag", "NoSpuriousClose": "RoutedByFirstUfrag",
              "BadFirstFrameClosed": "BadFirstFrameClosed", "ProvisionalExpires": "ProvisionalExpires",
@@ -694,7 +694,7 @@ MUX_PARTS = {"RoutedSafe": "RoutedByFirstUfrag", "RepliesRouted": "RoutedByFirst
 def mux_consts(clients, behaviours, **kw):
     d = {"Clients": clients, "Behaviours": "{" + ", ".join(q(b) for b in behaviours) + "}",
          "MaxPc": "4", "RB": "1", "MaxLater": "1", "MaxGet": "2", "MaxRm": "1", "MaxAdv": "2", "MaxReply": "0",
-         "MaxExt": "4", "MaxRaces": "1"}
+         "MaxExt": "4", "MaxRaces": "1", "StaleWatcher": "FALSE"}
     d.update({k: str(x) for k, x in kw.items()})
     return d
 
@@ -727,9 +727,10 @@ STEP_RE = re.compile(r'^State \d+: <(\w+)(?:\((.*?)\))? line')
 
 
 def mux_stale_counterexample(work, stats, timeout=120):
-    """TLC's shortest behaviour in which a watcher goroutine unlists a packet conn that is not its own (NoStaleRemoval fails
-    in the model - a design-level counterexample), as a schedule for the real mux, followed by a client for that ufrag."""
-    d = mux_consts("{1, 2}", ["known", "silent"], MaxExt=3, MaxRaces=2)
+    """Near miss (DESIGN 2.3): TcpMux with the guard "a watcher unlists only its own packet conn" removed (StaleWatcher = TRUE,
+    the defect F-C15a repaired by 1201bc6). TLC's shortest counterexample to NoStaleRemoval becomes a schedule for the real mux,
+    followed by a client for that ufrag: on a tree with the guard the predicates hold, without it they fail."""
+    d = mux_consts("{1, 2}", ["known", "silent"], MaxExt=3, MaxRaces=2, StaleWatcher="TRUE")
     mod = write_module(work.dir, "MCMstale", "TcpMuxSim", d, ["INIT SimInit", "NEXT SimNext", "CHECK_DEADLOCK FALSE", "INVARIANT StaleDump"])
     r = v.require(v.tlc(work.dir, mod, timeout=timeout, workers=1), "TcpMux NoStaleRemoval")
     stats["states"] += r.distinct
@@ -739,7 +740,7 @@ def mux_stale_counterexample(work, stats, timeout=120):
         m = BEH_RE.search(line)
         if m:
             cex.append(json.loads(m.group(1).replace('\\"', '"')))
-    stats["model_runs"].append({"module": "TcpMux", "instance": "NoStaleRemoval (design-level counterexamples expected), 3 environment actions",
+    stats["model_runs"].append({"module": "TcpMux", "instance": "near miss: StaleWatcher = TRUE (watcher unlists whatever is registered), NoStaleRemoval must fail, 3 environment actions",
                                 "distinct": r.distinct, "generated": r.generated, "wall_s": round(r.wall, 1),
                                 "violated": ["NoStaleRemoval"] if cex else [], "counterexample_states": len(cex)})
     if not cex:
@@ -755,7 +756,7 @@ def mux_stale_counterexample(work, stats, timeout=120):
     u = next((a["u"] for a in reversed(acts) if a["ev"] == "Get"), "u1")
     tail = [{"ev": "Dial", "c": 1, "w": True}, {"ev": "Send", "c": 1, "w": True}]
     stats["near_miss_schedules"] += 1
-    return {"beh": ["known" if u == "u1" else "unknown", "silent"], "rb": 1, "later": 1, "acts": acts + tail, "tag": "tlc-cex NoStaleRemoval"}
+    return {"beh": ["known" if u == "u1" else "unknown", "silent"], "rb": 1, "later": 1, "acts": acts + tail, "tag": "near-miss NoStaleRemoval (regression F-C15a)"}
 
 
 BEH_RE = re.compile(r'<<"BEH", "(.*)">>\s*$')
@@ -957,11 +958,15 @@ def c15(tier, seed):
     return verdict.finish()
 
 
-# directed scenarios replayed in every run (the stale-watcher history also comes from TLC's counterexample above)
+# directed scenarios replayed in every run; the first is the history that reproduced F-C15a (repaired by 1201bc6; the same
+# history also comes from TLC's near-miss counterexample above) and must now pass
 MUX_DIRECTED = [
-    {"beh": ["known", "silent"], "rb": 1, "later": 1, "tag": "directed remove-then-get",
+    {"beh": ["known", "silent"], "rb": 1, "later": 1, "tag": "directed remove-then-get (regression F-C15a)",
      "acts": [{"ev": "Get", "u": "u1", "w": True}, {"ev": "Remove", "u": "u1", "w": True}, {"ev": "Get", "u": "u1", "w": False},
               {"ev": "Dial", "c": 1, "w": True}, {"ev": "Send", "c": 1, "w": True}]},
+    {"beh": ["known", "silent", "late"], "rb": 1, "later": 1, "tag": "directed remove-then-first-frame (regression F-C15a)",
+     "acts": [{"ev": "Get", "u": "u1", "w": True}, {"ev": "Dial", "c": 3, "w": True}, {"ev": "Remove", "u": "u1", "w": True},
+              {"ev": "Send", "c": 3, "w": False}, {"ev": "Advance", "w": True}, {"ev": "Get", "u": "u1", "w": True}, {"ev": "Send", "c": 3, "w": True}]},
     {"beh": ["known", "unknown", "garbage"], "rb": 1, "later": 2, "tag": "directed routing",
      "acts": [{"ev": "Get", "u": "u1", "w": True}, {"ev": "Dial", "c": 1, "w": True}, {"ev": "Send", "c": 1, "w": True},
               {"ev": "Dial", "c": 2, "w": True}, {"ev": "Dial", "c": 3, "w": True}, {"ev": "Reply", "h": 1, "c": 1, "w": True},
@@ -1050,7 +1055,7 @@ MANIFEST = {
             "TcpMux.tla (handleConn, per-connection reader, watcher and alive-timer goroutines, m.mu as a lock, m.wg as a counter, "
             "Get/Remove/Close, countdown timers) model-checked exhaustively for 2 clients x behaviour classes x interleavings within a "
             "bound on environment actions and on actions that race with the mux's goroutines; TLC simulation behaviours (3 clients, nine "
-            "client behaviours), TLC's counterexample to NoStaleRemoval and directed schedules are replayed on the real TCPMuxDefault over a "
+            "client behaviours), TLC's near-miss counterexample to NoStaleRemoval and directed schedules are replayed on the real TCPMuxDefault over a "
             "fake listener and net.Pipe connections inside synctest bubbles (virtual 30 s timers, goroutine-leak oracle); recorded traces "
             "are validated against TcpMux (silent internal steps) and judged by the monitor predicates RoutedByFirstUfrag, "
             "BadFirstFrameClosed, ProvisionalExpires, CloseCompletes.",
